@@ -259,3 +259,16 @@ func (s *SMP) Reseal2(m []*big.Int, qb *big.Int, d5, d6 *big.Int) []*big.Int {
 	out[9], out[10] = d5, d6
 	return out
 }
+
+// ResealLog produces a proof (c, D) of "knowledge of the logarithm" that verifies for the element p-1:
+// with c even, (p-1)^c = 1, so c = H(ver, g^r) and D = r satisfy the verification equation.
+func ResealLog(ver byte, rnd func() *big.Int) (c, d *big.Int) {
+	for i := 0; i < 64; i++ {
+		r := new(big.Int).Mod(rnd(), Q)
+		c = hashInt(ver, expP(G, r))
+		if c.Bit(0) == 0 {
+			return c, r
+		}
+	}
+	return c, new(big.Int)
+}
